@@ -137,7 +137,7 @@ def features(run):
 
 def check(ctx, prop):
     quick = ctx.quick()
-    n = 250 if quick else 4000
+    n = 250 if quick else 2000
     devs = sorted(DEVIATIONS)
 
     def run_dev(dev):
@@ -151,14 +151,21 @@ def check(ctx, prop):
             return T.counterexample_hist(ctx, dd, "MC_ProxyFanout.tla", cfg, timeout=600, workers=2)
         return f
 
+    def run_mc2():
+        # quick only: second small exhaustive config (2 partitions, <=3 faulty exchanges) that reaches the third attempt and the final fill-in
+        if not quick:
+            return None
+        return T.model_check(ctx, T.stage(ctx, DIR, "mc2"), "MC_ProxyFanout.tla", "MC_ProxyFanout_quick2.cfg", timeout=1500, workers=4)
+
     res = par([
-        lambda: T.model_check(ctx, T.stage(ctx, DIR, "mc"), "MC_ProxyFanout.tla", "MC_ProxyFanout_%s.cfg" % ctx.tier, coverage=not quick, timeout=1700, workers=8),
-        lambda: T.simulate_hists(ctx, T.stage(ctx, DIR, "sim"), "MC_ProxyFanout.tla", "Sim_ProxyFanout.cfg", num=n, depth=40, seed=ctx.seed, timeout=900),
+        lambda: T.model_check(ctx, T.stage(ctx, DIR, "mc"), "MC_ProxyFanout.tla", "MC_ProxyFanout_%s.cfg" % ctx.tier, coverage=not quick, timeout=2700, workers=8),
+        lambda: T.simulate_hists(ctx, T.stage(ctx, DIR, "sim"), "MC_ProxyFanout.tla", "Sim_ProxyFanout.cfg", num=n, depth=40, seed=ctx.seed, timeout=2700),
+        run_mc2,
     ] + [run_dev(dev) for dev in devs])
-    mc, (hs, _) = res[0], res[1]
-    ctx.log("model: %d distinct states, depth %d" % (mc.distinct, mc.depth))
+    mc, (hs, _), mc2 = res[0], res[1], res[2]
+    ctx.log("model: %d distinct states, depth %d%s" % (mc.distinct, mc.depth, "" if mc2 is None else "; second config: %d distinct states, depth %d" % (mc2.distinct, mc2.depth)))
     scheds, labels = [], []
-    for dev, (h, r) in zip(devs, res[2:]):
+    for dev, (h, r) in zip(devs, res[3:]):
         inv = DEVIATIONS[dev]
         if h is None or inv not in r.violated:
             raise Broken("deviation %s/%s no longer violates %s in the model (vacuous deviation)" % (dev[0], dev[1], inv))
@@ -168,12 +175,15 @@ def check(ctx, prop):
         if not h or h[-1].get("a") != "Finish":
             continue
         s = hist_to_sched(h, ALL_BACKENDS, (ctx.seed + len(scheds)) % 3)
+        # the wire encoding (names: produce v9 / fetch v11; ids: produce v7 / fetch v13 with topic ids) does not exist in the
+        # model; it is assigned here, alternating, so that simulation does not spend its branching on it
+        s["ids"] = ("name", "id")[(ctx.seed + len(scheds)) % 2]
         k = json.dumps(s, sort_keys=True)
         if k in seen:
             continue
         seen.add(k)
         scheds.append(s); labels.append("sim")
-    if len(scheds) < len(DEVIATIONS) + (50 if quick else 500):
+    if len(scheds) < len(DEVIATIONS) + (50 if quick else 400):
         raise Broken("only %d schedules generated" % len(scheds))
     ctx.log("%d schedules (%d deviation counterexamples, %d simulated)" % (len(scheds), len(DEVIATIONS), len(scheds) - len(DEVIATIONS)))
     rows = harness(ctx, scheds, "main")
@@ -220,6 +230,7 @@ def check(ctx, prop):
     cov = {
         "states": mc.distinct, "transitions": mc.generated, "depth": mc.depth, "exhaustive": True,
         "model_config": "MC_ProxyFanout_%s.cfg" % ctx.tier,
+        "second_model": None if mc2 is None else {"model_config": "MC_ProxyFanout_quick2.cfg", "states": mc2.distinct, "transitions": mc2.generated, "depth": mc2.depth},
         "traces_validated_against_impl": len(runs), "trace_events": len(rows),
         "evaluations": len(scheds), "distinct_nontrivial": nontrivial,
         "rule": "schedules = TLC counterexamples of the named deviations + distinct TLC -simulate behaviours (seeded); non-trivial = the OBSERVED trace contains a NOT_LEADER answer, a connection lost after the send, an undecodable reply, a retry or a sub-request that could not be connected",
